@@ -173,6 +173,8 @@ type GenSpec struct {
 	Add   int    `json:"add"`
 	Mod   int    `json:"mod"`
 	Types string `json:"types,omitempty"`
+	DupAt int    `json:"dupat,omitempty"` // position k > 0 whose _id repeats the one of position 0 (0 = none)
+	BadAt int    `json:"badat,omitempty"` // position k > 0 holding a malformed _id (0 = none)
 }
 
 // Docs materialises the batch.
@@ -198,6 +200,12 @@ func (g *GenSpec) Docs(idOf func(int) string) []Doc {
 		d := Doc{"_id": idOf(i), "u": int64(i), "x": x, "y": int64(i % 7)}
 		if g.Pad > 0 {
 			d["pad"] = pad
+		}
+		if g.DupAt > 0 && k == g.DupAt {
+			d["_id"] = idOf(g.First)
+		}
+		if g.BadAt > 0 && k == g.BadAt {
+			d["_id"] = "not-a-uuid"
 		}
 		out[k] = d
 	}
